@@ -2,7 +2,7 @@
    Statements only: each theorem restates a lemma of Theorems.v and is closed by [exact]. *)
 From stdpp Require Import gmap list.
 From Coq Require Import NArith.
-From G Require Import Arith Monad Types Inv Raw RawProofs Map MapProofs IterProofs CloneProofs Cost EntryProofs EntryCost Ledger Fill WorldProofs Theorems.
+From G Require Import Arith Monad Types Inv Raw RawProofs Map MapProofs IterProofs CloneProofs Cost EntryProofs EntryCost Ledger SetProofs Fill WorldProofs Theorems.
 Local Open Scope N_scope.
 
 (* storing a new element - with whatever growing (the main table becomes the old one) and
@@ -47,6 +47,15 @@ Theorem C06_iter_drops_nothing : forall delta s o s',
   lite s -> map_iter delta s = Ok o s' -> dks s' = dks s /\ dvs s' = dvs s /\ lite s'.
 Proof. exact T_C06_iter. Qed.
 
+(* clone() and == drop nothing (the clones clone() makes live in the new map) *)
+Theorem C06_clone_drops_nothing : forall c s r s',
+  lite s -> rt_clone c s = Ok r s' -> dks s' = dks s /\ dvs s' = dvs s /\ lite s'.
+Proof. exact T_C06_clone. Qed.
+
+Theorem C06_eq_drops_nothing : forall other s b s',
+  lite s -> map_equal other s = Ok b s' -> dks s' = dks s /\ dvs s' = dvs s /\ lite s'.
+Proof. exact T_C06_eq. Qed.
+
 (* clear() and dropping the map: every stored key and every stored value - in the new table and
    among the old table's leftovers alike - is dropped exactly once (the ledger grows by a
    permutation of the stored objects) and nothing stays behind *)
@@ -62,6 +71,30 @@ Theorem C06_drop_map_drops_each_once : forall s a s',
   dks s' ≡ₚ map ekid (elems (s_rt s)) ++ dks s /\ dvs s' ≡ₚ map ev (elems (s_rt s)) ++ dvs s.
 Proof. exact T_C06_drop. Qed.
 
+(* drain() and into_iter(), consumed for j items and then dropped: the first j elements of the
+   iterator's order are handed to the caller; every other element - in either table - is dropped
+   exactly once; nothing stays behind *)
+Theorem C06_drain_drops_the_rest_once : forall j s out s',
+  lite s -> map_drain j false s = Ok out s' ->
+  exists l, out = map elem3 (firstn (N.to_nat j) l) /\ lite s' /\ elems (s_rt s') = [] /\
+    dks s' = rev (map ekid (skipn (N.to_nat j) l)) ++ dks s /\
+    dvs s' = rev (map ev (skipn (N.to_nat j) l)) ++ dvs s.
+Proof. exact T_C06_drain. Qed.
+
+Theorem C06_into_iter_drops_the_rest_once : forall j s out s',
+  lite s -> map_into_iter j s = Ok out s' ->
+  exists l, out = map elem3 (firstn (N.to_nat j) l) /\ lite s' /\ elems (s_rt s') = [] /\
+    dks s' = rev (map ekid (skipn (N.to_nat j) l)) ++ dks s /\
+    dvs s' = rev (map ev (skipn (N.to_nat j) l)) ++ dvs s.
+Proof. exact T_C06_into_iter. Qed.
+
+(* retain drops exactly what it removes: the key objects dropped so far together with those
+   still stored are, as a multiset, what they were before the call *)
+Theorem C06_retain_conserves_keys : forall c keep delta s out s',
+  lite s -> map_retain c keep delta s = Ok out s' ->
+  lite s' /\ dks s' ++ map ekid (elems (s_rt s')) ≡ₚ dks s ++ map ekid (elems (s_rt s)).
+Proof. exact T_C06_retain_conserves_keys. Qed.
+
 (* the hypothesis [lite] holds in every reachable state: it is part of the invariant *)
 Theorem C06_lite_reachable : forall R Esz s,
   Inv R Esz (s_rt s) -> lite s.
@@ -74,6 +107,11 @@ Print Assumptions C06_lookup_drops_nothing.
 Print Assumptions C06_reserve_drops_nothing.
 Print Assumptions C06_shrink_drops_nothing.
 Print Assumptions C06_iter_drops_nothing.
+Print Assumptions C06_clone_drops_nothing.
+Print Assumptions C06_eq_drops_nothing.
 Print Assumptions C06_clear_drops_each_once.
 Print Assumptions C06_drop_map_drops_each_once.
+Print Assumptions C06_drain_drops_the_rest_once.
+Print Assumptions C06_into_iter_drops_the_rest_once.
+Print Assumptions C06_retain_conserves_keys.
 Print Assumptions C06_lite_reachable.
